@@ -73,6 +73,4 @@ def run(chk):
 
 def replay(chk, path):
     case = json.load(open(path))
-    soup, o = D.observe_doc(case['input'], case.get('skip_envs', ()))
-    print(json.dumps({'outcome': o['o'], 'tree': repr(soup.expr) if soup else None}))
-    return 0
+    return D.replay_case(chk, case, 'C12-tree-depends-on-payload')
